@@ -477,7 +477,9 @@ def discovery_cases(rng, thorough):
     pick = allc if thorough else rng.sample(allc, 26)
     # the corner layouts always
     for must in [("none", "none", "none"), ("both", "none", "none"), ("none", "both", "none"), ("tool", "pyscn", "none"), ("none", "tool", "pyscn"),
-                 ("pyscn", "tool", "none"), ("none", "none", "both"), ("tool", "tool", "pyscn"), ("none", "pyscn", "tool"), ("tool", "none", "tool")]:
+                 ("pyscn", "tool", "none"), ("none", "none", "both"), ("tool", "tool", "pyscn"), ("none", "pyscn", "tool"), ("tool", "none", "tool"),
+                 # the only file two levels up, of either kind (the upward walk must keep climbing)
+                 ("none", "none", "tool"), ("none", "none", "pyscn"), ("plain", "none", "tool"), ("none", "plain", "tool"), ("none", "tool", "none")]:
         if must not in pick:
             pick.append(must)
     for i, t in enumerate(pick):
@@ -491,7 +493,9 @@ def discovery_cases(rng, thorough):
     # cwd elsewhere
     for t, c in [(("none", "none", "none"), ("pyscn", "none")), (("none", "none", "none"), ("none", "tool")), (("none", "none", "none"), ("none", "none")),
                  (("none", "tool", "none"), ("pyscn", "none")), (("pyscn", "none", "none"), ("both", "pyscn")), (("none", "none", "pyscn"), ("tool", "pyscn")),
-                 (("none", "none", "none"), ("both", "none")), (("none", "none", "none"), ("tool", "pyscn")), (("plain", "none", "none"), ("none", "pyscn"))]:
+                 (("none", "none", "none"), ("both", "none")), (("none", "none", "none"), ("tool", "pyscn")), (("plain", "none", "none"), ("none", "pyscn")),
+                 (("none", "none", "tool"), ("none", "none")), (("none", "none", "tool"), ("pyscn", "none")), (("none", "none", "pyscn"), ("none", "tool")),
+                 (("none", "none", "none"), ("none", "tool")), (("none", "tool", "none"), ("none", "none"))]:
         cs.append(mk("analyze", t, cwd=c, target_file=rng.random() < 0.3))
         cs.append(mk("check", t, cwd=c, target_file=rng.random() < 0.3))
     # --config
